@@ -366,7 +366,9 @@ def run(ctx):
           % {k[30:]: v for k, v in sorted(total.items()) if k.startswith("smuonR_on_left_like_pole_mass:")})
     wk = {k[7:]: v for k, v in sorted(total.items()) if k.startswith("warned:")}
     print("[C05] warned by class: %s" % wk)
-    if not stop and (total.get("gen_ok", 0) < 0.8 * len(pts) or checked < 0.5 * conv):
+    # non-vacuity guard; a run that already found violations reports those instead (a defect may be the very reason
+    # why most conversions warn)
+    if not stop and not ctx.violations and (total.get("gen_ok", 0) < 0.8 * len(pts) or checked < 0.5 * conv):
         raise InfraError("lattice mostly skipped: gen_ok %d/%d, checked %d/%d" % (total.get("gen_ok", 0), len(pts), checked, conv))
     ctx.sample({"first_point": dict(zip(("tb", "mu", "M1", "M2", "mL", "mR"), pts[0][:6])), "classes": list(pts[0][6])})
     ctx.sample({"last_point": dict(zip(("tb", "mu", "M1", "M2", "mL", "mR"), pts[-1][:6])), "classes": list(pts[-1][6])})
